@@ -14,6 +14,20 @@
 //   tree   CO_Tree against std::map (rowdiff__row.cc)                  C16.map.* C16.struct.*
 //   alias  aliased operands, each step in a forked child               C13.row.alias.*
 //   ascii_load round trips are steps of every sub-workload             C15.row.*
+//
+// Triage classes (after the colon) are computed from the failing input.  Configurations that hit a defect already
+// known on this tree are entered with a small probability, tunable with --kv <name>=<percent>:
+//   truncds (copy to a smaller dimension, DENSE source, SPARSE target)      class truncating-dense-to-sparse
+//   lcdim   (linear_combine[_lax] with an argument of lower dimension)       class arg-lower-dim-tail-unscaled
+//   laxsz   (linear_combine_lax, c1 == 0, SPARSE receiver, DENSE argument)   class c1-zero-sparse-receiver-dense-arg
+//   aze00   (all_zeroes_except over the empty range [0,0))                   class dense-empty-range-at-0
+//   copydim (copy of a strict inequality / closure point / grid generator to another dimension)
+//                                                                            class *-special-column-misplaced
+//   shorter (free linear_combine(Sparse_Row&, const Dense_Row&) with a shorter y)   class y-shorter
+// A defect that corrupts an object silently may surface steps later in another operation: once such a configuration
+// has been exercised in a case, every later violation of that case carries its class (rd::poison()).
+// --kv assertsafe=1 (for assertion-enabled builds): none of the above is entered, nor the handful of
+// representation-independent configurations that abort in a PPL_ASSERT (see the comments at assert_safe() uses).
 #include "rowdiff_common.hh"
 
 using namespace rd;
